@@ -26,6 +26,7 @@ type C18Case struct {
 	NRows  int          `json:"nrows"`
 	From   int          `json:"from"` // scan range [From, To) in row indices; To<=0 = whole table
 	To     int          `json:"to"`
+	Hole   int          `json:"hole,omitempty"`
 	Gaps   [][]C18Write `json:"gaps"` // writes performed while the scan is inside its k-th Send
 	Free   bool         `json:"free,omitempty"`
 }
@@ -44,6 +45,7 @@ func genC18(free bool) *rapid.Generator[C18Case] {
 		if rapid.Bool().Draw(t, "ranged") {
 			c.From = rapid.IntRange(0, c.NRows/4).Draw(t, "from")
 			c.To = rapid.IntRange(c.NRows*3/4, c.NRows).Draw(t, "to")
+			c.Hole = rapid.SampledFrom([]int{0, 0, 1, 50}).Draw(t, "hole") // >0: the range is split in two with a gap of that many rows
 		}
 		w := rapid.Custom(func(t *rapid.T) C18Write {
 			return C18Write{K: rapid.SampledFrom([]string{"set", "set", "del", "rmw", "ins", "multi"}).Draw(t, "k"), Row: rapid.IntRange(0, c.NRows-1).Draw(t, "row")}
@@ -161,10 +163,17 @@ func runC18(c C18Case, ev *vt.Ev) *vt.Failure {
 	}
 	var rs *bt.RowSet
 	lo, hi := bt.BS(""), bt.BS("\xff")
+	var holeLo, holeHi bt.BS
 	if c.To > 0 {
 		lo, hi = c18Key(c.From), c18Key(c.To)
 		rs = &bt.RowSet{Ranges: []bt.Range{{S: bt.Bound{K: 2, V: lo}, E: bt.Bound{K: 1, V: hi}}}}
+		if c.Hole > 0 {
+			mid := (c.From + c.To) / 2
+			holeLo, holeHi = c18Key(mid), c18Key(mid+c.Hole)
+			rs = &bt.RowSet{Ranges: []bt.Range{{S: bt.Bound{K: 2, V: lo}, E: bt.Bound{K: 1, V: holeLo}}, {S: bt.Bound{K: 2, V: holeHi}, E: bt.Bound{K: 1, V: hi}}}}
+		}
 	}
+	inSet := func(k bt.BS) bool { return k >= lo && k < hi && !(holeLo != "" && k >= holeLo && k < holeHi) }
 	var writeErr atomic.Value
 	gapsUsed, acked := 0, 0
 	touchedAhead := false
@@ -198,7 +207,7 @@ func runC18(c C18Case, ev *vt.Ev) *vt.Failure {
 			}
 			for _, w := range c.Gaps[n-1] {
 				op := c18Op(w, n)
-				if string(op.Key) > lastSent && op.Key >= lo && op.Key < hi {
+				if string(op.Key) > lastSent && inSet(op.Key) {
 					touchedAhead = true
 				}
 				doWrite(op)
@@ -266,8 +275,8 @@ func runC18(c C18Case, ev *vt.Ev) *vt.Failure {
 		if i > 0 && !(got.Rows[i-1].Key < r.Key) {
 			return vt.Failf("C18", "keys not strictly ascending: %q then %q", got.Rows[i-1].Key, r.Key)
 		}
-		if r.Key < lo || r.Key >= hi {
-			return vt.Failf("C18", "row %q is outside the requested range", r.Key)
+		if !inSet(r.Key) {
+			return vt.Failf("C18", "row %q is outside the requested row set", r.Key)
 		}
 		seen[string(r.Key)] = true
 		if sh := bt.CheckShape(r, true); sh != "" {
@@ -295,7 +304,7 @@ func runC18(c C18Case, ev *vt.Ev) *vt.Failure {
 	}
 	// rows that existed with cells during the whole scan must be returned
 	for k, vs := range m.versions {
-		if bt.BS(k) < lo || bt.BS(k) >= hi || seen[k] {
+		if !inSet(bt.BS(k)) || seen[k] {
 			continue
 		}
 		always := true
